@@ -1980,7 +1980,10 @@ func (s *SweepingProvider) individualProvide(prefix bitstr.Key, keys []mh.Multih
 			// Put the key back in the provide queue.
 			s.failedProvide(prefix, keys, fmt.Errorf("individual provide failed for prefix '%s', %w", prefix, err))
 		}
-		if reprovide && err == nil {
+		if reprovide && err == nil && len(coveredPrefix) >= len(prefix) {
+			// Never adopt a covered prefix that is shorter than the scheduled
+			// one: only this key was reprovided, and rescheduling the broader
+			// prefix would unschedule sibling regions whose keys were not.
 			prefix = coveredPrefix
 		}
 		provideErr = err
